@@ -277,9 +277,11 @@ def model_save_quantized_weights(model, filename=None, custom_objects={}):
         ws = layer.get_weights()
       elif layer.__class__.__name__ == "QBidirectional":
         # each direction lists [kernel, recurrent, bias, state] quantizers; the
-        # state quantizer has no weight.
-        qs = (list(layer.forward_layer.get_quantizers()[:-1]) +
-              list(layer.backward_layer.get_quantizers()[:-1]))
+        # state quantizer has no weight (and without a bias the bias quantizer
+        # has none either).
+        qs = []
+        for direction in [layer.forward_layer, layer.backward_layer]:
+          qs += list(direction.get_quantizers()[:len(direction.get_weights())])
         ws = layer.get_weights()
       elif layer.__class__.__name__ == "QBatchNormalization":
         # gamma / beta only exist with scale / center: keep the quantizers
